@@ -507,6 +507,21 @@ func c12Gen(rng *verifsim.RNG, idx int, tier string) *Plan {
 		if rng.Bool(0.2) {
 			p.Actions = append(p.Actions, Action{At: int64(rng.Dur(0, horizon)) + jitter(rng), Kind: "fwd", If: "eth0", On: false})
 		}
+		if rng.Bool(0.2) {
+			// two advertising interfaces, each handed a neighbour's RA in the same
+			// instant, the one stepping back in the middle of reporting what it
+			// found: each reports its own findings
+			secondInterface(rng, p)
+			p.Class += "+both-at-once"
+			for i, k := 0, rng.Range(1, 4); i < k; i++ {
+				a := Action{At: int64(rng.Dur(0, horizon)) + jitter(rng), Kind: "ra", If: "eth0", Src: "fe80::5:1", RA: c12Peer(rng)}
+				b := Action{Kind: "ra", If: "eth1", Src: "fe80::5:2", RA: c12Peer(rng)}
+				a.Then = &b
+				p.Actions = append(p.Actions, a)
+			}
+			p.Sched = rng.U64() | 1
+			p.Bias = map[string]uint64{"": uint64(rng.Intn(2)), "loop@advertise.go": 3}
+		}
 	default:
 		p.Class = "random"
 		genIfaceSpec(rng, s, cfgOpts{frac: false, wildcards: false, deprecated: false, intervals: true})
